@@ -367,3 +367,36 @@ theorem getV_of_mem {t : List (String × Nat)} (h : KInv t) {d : String} {v : Na
   lookup_of_mem_nodup (κ := String) (β := Nat) h.nodup hm
 
 end Func
+
+namespace Func
+
+mutual
+theorem reqG_mem (x : String × Nat) : (g : RGraph) → (x ∈ reqG g ↔ x ∈ allReqG g)
+  | .mk nodes => by
+    simp only [reqG, allReqG, List.mem_append]
+    exact reqNs_mem x nodes
+theorem reqNs_mem (x : String × Nat) : (ns : List RNode) →
+    ((x ∈ ownReq ns ∨ x ∈ subReq ns) ↔ x ∈ allReqNs ns)
+  | [] => by simp [ownReq, subReq, allReqNs]
+  | .mk r subs :: rest => by
+    have ih := reqNs_mem x rest
+    have ihs := reqGs_mem x subs
+    simp only [ownReq, subReq, allReqNs, List.mem_append, ihs, ← ih]
+    constructor
+    · rintro ((h | h) | (h | h))
+      · exact Or.inl h
+      · exact Or.inr (Or.inr (Or.inl h))
+      · exact Or.inr (Or.inl h)
+      · exact Or.inr (Or.inr (Or.inr h))
+    · rintro (h | h | h | h)
+      · exact Or.inl (Or.inl h)
+      · exact Or.inr (Or.inl h)
+      · exact Or.inl (Or.inr h)
+      · exact Or.inr (Or.inr h)
+theorem reqGs_mem (x : String × Nat) : (gs : List RGraph) → (x ∈ reqGs gs ↔ x ∈ allReqGs gs)
+  | [] => by simp [reqGs, allReqGs]
+  | g :: gs => by
+    simp only [reqGs, allReqGs, List.mem_append, reqG_mem x g, reqGs_mem x gs]
+end
+
+end Func
